@@ -93,6 +93,23 @@ func (fr *Frame) callWith(st *State, c *ssa.CallCommon, args []Val, site ssa.Ins
 				fr.vc.ensureKey(gk, k.Sort())
 				st.v[gk] = res.S[i]
 			}
+			// result of the first call under the label (first(Label))
+			{
+				ck := "g.calls." + lab
+				fr.vc.ensureKey(ck, "Int")
+				isFirst := tEq(fr.vc.get(st, ck), "1") // the counter was bumped before the call
+				for i, k := range lay.Kinds {
+					fk := fmt.Sprintf("g.first.%s:%d", lab, i)
+					fr.vc.ensureKey(fk, k.Sort())
+					st.v[fk] = tIte(isFirst, res.S[i], fr.vc.get(st, fk))
+				}
+			}
+			// conjunction of the boolean results of all calls under the label
+			if len(res.S) == 1 && lay.Kinds[0] == KB {
+				ak := "g.all." + lab
+				fr.vc.ensureKey(ak, "Bool")
+				st.v[ak] = tAnd(fr.vc.get(st, ak), res.S[0])
+			}
 			// state right after the call: at(Label, expr) in specifications
 			if fr.vc.lastState == nil {
 				fr.vc.lastState = map[string]*State{}
@@ -468,6 +485,24 @@ func (vc *VC) forgetReachable(st *State, c *ssa.CallCommon, callee *ssa.Function
 				vc.havocKey(st, gk)
 			}
 		}
+		if ak := "g.all." + lab; vc.keySort[ak] != "" {
+			o := vc.get(st, ak)
+			n := vc.havocKey(st, ak)
+			vc.assumeRaw(tImp(n, o))
+		}
+		vc.forgetFirst(st, lab, o)
+	}
+}
+
+// forgetFirst: the result of the first call under a label may have been set by
+// unknown code, unless a call had already happened (oldCount >= 1).
+func (vc *VC) forgetFirst(st *State, lab string, oldCount Term) {
+	for gk := range vc.keySort {
+		if strings.HasPrefix(gk, "g.first."+lab+":") {
+			o := vc.get(st, gk)
+			n := vc.havocKey(st, gk)
+			vc.assumeRaw(tImp(tLe("1", oldCount), tEq(n, o)))
+		}
 	}
 }
 
@@ -619,7 +654,7 @@ func mentionsCallHistory(x SExpr) bool {
 	walk = func(x SExpr) {
 		switch x := x.(type) {
 		case *SCall:
-			if id, ok := x.Fun.(*SIdent); ok && (id.Name == "calls" || id.Name == "last" || id.Name == "at") {
+			if id, ok := x.Fun.(*SIdent); ok && (id.Name == "calls" || id.Name == "last" || id.Name == "at" || id.Name == "alltrue" || id.Name == "first") {
 				found = true
 			}
 			walk(x.Fun)
@@ -657,7 +692,7 @@ func historyLabels(ct *Contract) map[string]bool {
 	walk = func(x SExpr) {
 		switch x := x.(type) {
 		case *SCall:
-			if id, ok := x.Fun.(*SIdent); ok && (id.Name == "calls" || id.Name == "last" || id.Name == "at") && len(x.Args) >= 1 {
+			if id, ok := x.Fun.(*SIdent); ok && (id.Name == "calls" || id.Name == "last" || id.Name == "at" || id.Name == "alltrue" || id.Name == "first") && len(x.Args) >= 1 {
 				if l, ok := x.Args[0].(*SIdent); ok {
 					out[l.Name] = true
 				}
@@ -1219,6 +1254,12 @@ func (fr *Frame) loopHead(st *State, li *loopInfo) {
 					vc.havocKey(st, gk)
 				}
 			}
+			if ak := "g.all." + lab; vc.keySort[ak] != "" {
+				o := vc.get(st, ak)
+				n := vc.havocKey(st, ak)
+				vc.assumeRaw(tImp(n, o))
+			}
+			vc.forgetFirst(st, lab, o)
 		}
 	}
 	// 3. assume frame and invariants for an arbitrary iteration
